@@ -19,6 +19,7 @@ TARGET = os.path.join(VERIF, 'target')
 EXEC_BIN = os.path.join(TARGET, 'checked', 'avmon-exec')
 CORPUS_BIN = os.path.join(TARGET, 'checked', 'avmon-corpus')
 NCPU = min(16, os.cpu_count() or 4)
+HOOKS_AVAILABLE = True
 
 
 class Inconclusive(Exception):
@@ -35,6 +36,18 @@ def build(package='avmon-exec', extra=None, quiet=True):
     cmd = ['cargo', 'build', '--offline', '--profile', 'checked', '-p', package] + (extra or [])
     t0 = time.time()
     p = subprocess.run(cmd, cwd=HARNESS, env=env, stdout=subprocess.PIPE, stderr=subprocess.STDOUT, text=True)
+    global HOOKS_AVAILABLE
+    HOOKS_AVAILABLE = True
+    if p.returncode != 0 and package == 'avmon-exec' and not extra:
+        # the hook accessors are compiled only with the library's verif-hooks feature: a change to the
+        # library may stop them compiling although the library itself (guard off) still builds.  The
+        # monitors then run black-box, without the state peeks.
+        q = subprocess.run(cmd + ['--no-default-features', '--features', 'ffi-codecs'], cwd=HARNESS, env=env,
+                           stdout=subprocess.PIPE, stderr=subprocess.STDOUT, text=True)
+        if q.returncode == 0:
+            HOOKS_AVAILABLE = False
+            print('note: the verif-hooks accessors do not compile against this tree; running without state peeks')
+            return time.time() - t0
     if p.returncode != 0:
         tail = '\n'.join(p.stdout.splitlines()[-40:])
         raise Inconclusive('harness build failed against the current tree:\n' + tail)
